@@ -6,6 +6,7 @@ import Driver.Util
 import Driver.Conv
 import Driver.Ka
 import Driver.Dp
+import Driver.Rq
 /-!
 # Line-protocol driver
 
@@ -20,6 +21,7 @@ structure St where
   noise : Noise.Helper := {}
   ka : Keepalive.State := Keepalive.init 1
   dp : DrvDp.DSt := {}
+  rq : DrvRq.RSt := {}
 
 def showPlainErr : Option PlainErr → String
   | none => "none" | some .requiresEncryption => "requiresEncryption" | some .protocol => "protocol"
@@ -128,6 +130,7 @@ def step (st : St) (line : String) : St × String :=
     if h.startsWith "conv." then (st, convStep ws)
     else if h.startsWith "ka." then let r := DrvKa.kaStep st.ka ws; ({ st with ka := r.1 }, r.2)
     else if h.startsWith "dp." then let r := DrvDp.dpStep st.dp ws; ({ st with dp := r.1 }, r.2)
+    else if h.startsWith "rq." then let r := DrvRq.rqStep st.rq ws; ({ st with rq := r.1 }, r.2)
     else (st, "bad-op")
 
 partial def loop (h : IO.FS.Stream) (out : IO.FS.Stream) (st : St) : IO Unit := do
